@@ -364,7 +364,7 @@ def may_reach(fn_node: ast.AST, use: ast.Name) -> list[ast.AST] | None:
 		return None
 	anc_u = ancestors(use)
 	anc_ids = {id(a) for a in anc_u}
-	pos = lambda n: (n.lineno, n.col_offset)
+	pos = lambda n: (n.lineno, n.col_offset) if hasattr(n, 'lineno') else (n.context_expr.lineno, n.context_expr.col_offset)
 	before = [n for n in all_b if pos(n) < pos(use) and id(n) not in anc_ids]
 	dom = [n for n in before if id(pm.get(id(n))) in anc_ids]
 	# an enclosing for loop that binds the name dominates its own body
